@@ -42,6 +42,7 @@ type Scenario struct {
 	SeqBase   uint32      `json:"seq_base,omitempty"`
 	Script    FlowScript  `json:"script"`
 	Noise     []NoiseItem `json:"noise,omitempty"`
+	Muts      []MutSpec   `json:"muts,omitempty"`
 	Sack      SackCfg     `json:"sack"`
 	Faults    []Fault     `json:"faults,omitempty"`
 	FiltersOff bool       `json:"filters_off,omitempty"`
@@ -150,6 +151,7 @@ func RunScenario(t *testing.T, sc *Scenario) *Outcome {
 	out.FdBefore = countFds()
 	world := NewNetWorld(sc.Script)
 	world.Noise = sc.Noise
+	world.Muts = sc.Muts
 	world.Strict = sc.Strict || sc.ProbeKind() == "icmp-echo"
 	out.World = world
 	target := netip.AddrPortFrom(netip.MustParseAddr(sc.Target), uint16(sc.Port))
